@@ -17,10 +17,11 @@ CONSTANTS
   D_ExceptionsIgnoredWithRules = TRUE
   M_CapPerSource = TRUE
   M_InvertAfterShortcut = TRUE
+  M_LowerCopies = TRUE
   MSyms = {1, 2}
   MDataMax = 3
   MValMax = 2
   MCi = {FALSE}
   MPairLens = {1, 2}
-INVARIANTS TypeOK RefusedOnlyIf CutIsPrefix WithinLimitUntouched MatchAgrees DisabledNeverDrops ExceptionNeverDropsStrict SpamOnlyIfBanned BanOnlyAfterThresholdStrict UnbanWithin VerdictDeterminedStrict
+INVARIANTS TypeOK RefusedOnlyIf CutIsPrefix WithinLimitUntouched MatchAgrees DataUnchanged DisabledNeverDrops ExceptionNeverDropsStrict SpamOnlyIfBanned BanOnlyAfterThresholdStrict UnbanWithin VerdictDeterminedStrict
 CHECK_DEADLOCK FALSE
